@@ -60,7 +60,39 @@ func SameFunc(a, b *types.Func) bool {
 	if a == nil || b == nil {
 		return false
 	}
-	return a == b || a.Origin() == b.Origin()
+	if a == b || a.Origin() == b.Origin() {
+		return true
+	}
+	// a method of an interface that this module declares and that exactly one of its types implements denotes that
+	// type's method (an unexported interface extracted in front of one collaborator changes no call's target)
+	ca, cb := soleImpl(a), soleImpl(b)
+	return ca != nil && cb != nil && (ca == cb || ca.Origin() == cb.Origin())
+}
+
+var activeProg *Prog
+
+// soleImpl: f itself for a concrete method or function; for a method of a module-declared interface with exactly one
+// implementing type in the module, that type's method.
+func soleImpl(f *types.Func) *types.Func {
+	sig, _ := f.Type().(*types.Signature)
+	if sig == nil || sig.Recv() == nil {
+		return f
+	}
+	if _, isIface := sig.Recv().Type().Underlying().(*types.Interface); !isIface {
+		return f
+	}
+	p := activeProg
+	if p == nil || f.Pkg() == nil || !IsRepoPkg(f.Pkg().Path()) {
+		return f
+	}
+	impls := p.Implementations(f)
+	if len(impls) != 1 {
+		return f
+	}
+	if o, ok := impls[0].Object().(*types.Func); ok {
+		return o
+	}
+	return f
 }
 
 // IsCallTo reports whether instr is a call (call/go/defer) resolving to one of objs.
